@@ -23,16 +23,22 @@ MORE = {
 }
 
 
+BRANCHING = {"subgradient_method", "gradient_descent_qg_convex", "gradient_descent_qg_convex_decreasing", "epsilon_subgradient_method",
+             "frank_wolfe", "sgd", "randomized_coordinate_descent_smooth_convex", "subgradient_method_rsi_eb"}
+
+
 def grid_for(name, tier):
     g = T.grid(name, tier) + [kw for kw in MORE.get(name, []) if kw not in T.grid(name, tier)]
+    # iteration counts: the real runs of the families with a selection at every step enumerate the whole selection tree
+    cap = 6 if name in BRANCHING else 10
     if tier == "quick":
-        # up to 10 grid points spread evenly over the grid, small iteration counts (the real runs enumerate selection trees)
-        g = [kw for kw in g if kw.get("n", 1) <= 6]
+        # up to 10 grid points spread evenly over the grid
+        g = [kw for kw in g if kw.get("n", 1) <= cap]
         if len(g) > 10:
             idx = sorted({int(round(k * (len(g) - 1) / 9.0)) for k in range(10)})
             g = [g[i] for i in idx]
     else:
-        g = [kw for kw in g if kw.get("n", 1) <= 6]
+        g = [kw for kw in g if kw.get("n", 1) <= cap]
     return g
 
 
